@@ -14,6 +14,9 @@ pub enum G {
     Struct(Vec<G>),
     /// (width, variants: (index, name, fields))
     Enum(usize, Vec<(usize, String, Vec<G>)>),
+    /// a library type with its own schema node kind (Duration, SystemTime, DateTime, Canary1,
+    /// IpAddr, ...): schema-equal only to itself; byte layout = the inner grammar
+    Named(String, Box<G>),
 }
 
 #[derive(Clone, Copy, Debug, PartialEq, Eq, Hash)]
@@ -71,7 +74,12 @@ pub fn grammar(ty: &Ty, ver: u32) -> G {
         Ty::Opt(t) => G::Opt(Box::new(grammar(t, ver))),
         Ty::Res(a, b) => G::Enum(1, vec![(1, "Ok".into(), vec![grammar(a, ver)]), (0, "Err".into(), vec![grammar(b, ver)])]),
         Ty::Wrap(_, t) => grammar(t, ver),
-        Ty::Lib(l) => grammar(&l.wire, ver),
+        Ty::Lib(l) => match l.key.as_str() {
+            // documented as plain strings / plain primitives
+            "PathBuf" | "ArcStr" | "ArrayString" | "CowStr" => grammar(&l.wire, ver),
+            k if k.starts_with("Atomic") => grammar(&l.wire, ver),
+            k => G::Named(k.to_string(), Box::new(grammar(&l.wire, ver))),
+        },
         // IndexSet documents its elements as one-field structs ("Key"); same bytes, but a
         // different schema shape, so pairs with plain sequences are in the no-claim zone
         Ty::Seq(SeqKind::IndexSet, t) => G::Seq(Box::new(G::Struct(vec![grammar(t, ver)]))),
@@ -130,6 +138,7 @@ pub fn flatten(g: &G, out: &mut Vec<F>) {
                 flatten(f, out);
             }
         }
+        G::Named(_, i) => flatten(i, out),
         G::Enum(w, vs) => {
             let mut alts: Vec<(usize, Option<String>, Vec<F>)> = vs
                 .iter()
